@@ -134,7 +134,11 @@ func TestC08_PlainVSS(t *testing.T) {
 		}
 		dupV := vssVectorKinds[g.Pick("dupVectorKind", len(vssVectorKinds))]
 		dupS := vssShareKinds[g.Pick("dupShareKind", len(vssShareKinds))]
-		perms := permutations([]int{0, 1, 2, 3}) // 0 = V, 1 = S, 2 = V' (duplicate), 3 = S' (duplicate)
+		// 0 = V, 1 = S, 2 = V' (second vector-channel message), 3 = S' (second share): every order of {V,S}, {V,S,V'}, {V,S,S'}, {V,S,V',S'}
+		var perms [][]int
+		for _, items := range [][]int{{0, 1}, {0, 1, 2}, {0, 1, 3}, {0, 1, 2, 3}} {
+			perms = append(perms, permutations(items)...)
+		}
 		var cnt, nt int64
 		for _, vk := range vssVectorKinds {
 			for _, sk := range vssShareKinds {
@@ -185,6 +189,11 @@ func TestC08_PlainVSS(t *testing.T) {
 					if !expectKeys {
 						nt++
 					}
+					if expectKeys && len(p) > 2 && err != nil && crypto.IsDKGFailureError(err) {
+						// with a second vector or share delivered, keys are not demanded (the statement lists a duplicated vector
+						// among the invalid ones); what is demanded is that keys, if returned, belong to the first vector and share
+						continue
+					}
 					if expectKeys {
 						src := hon
 						if firstV == "alt" {
@@ -215,5 +224,5 @@ func TestC08_PlainVSS(t *testing.T) {
 		}
 		g.NonTrivial()
 	})
-	gen.Exhaustive("C08(g): for the drawn (n, t, receiver, seeds): every order of (vector, share, duplicate vector, duplicate share) × 11 kinds of vector-channel message × 8 kinds of share")
+	gen.Exhaustive("C08(g): for the drawn (n, t, receiver, seeds): every order of {V,S}, {V,S,V'}, {V,S,S'}, {V,S,V',S'} (38 orders) × 11 kinds of vector-channel message × 8 kinds of share")
 }
